@@ -301,7 +301,6 @@ Definition test_strict (t : testarg) : bool :=
 Definition not_test_not (t : testarg) : bool := match t with TTestNot _ => false | _ => true end.
 Definition not_nil (s : seqin) : bool := match s with SNil => false | _ => true end.
 Definition is_list (s : seqin) : bool := match s with SNil | SList _ => true | _ => false end.
-Definition count_not_num (c : countarg) : bool := match c with CNum _ => false | _ => true end.
 Definition start_absent (o : option nat) : bool := match o with None => true | Some _ => false end.
 
 (* only keywords the function has: :test for the item functions, :count for remove / delete / substitute *)
@@ -332,8 +331,8 @@ Definition in_domain (c : call) : bool :=
   | FCountIf => true
   | FRemove | FDelete => not_test_not (c_test c)
   | FRemoveIf | FDeleteIf => true
-  | FSubstitute | FNsubstitute => not_test_not (c_test c) && count_not_num (c_count c)   (* KF :count counts looks *)
-  | FSubstituteIf | FNsubstituteIf => count_not_num (c_count c)
+  | FSubstitute | FNsubstitute => not_test_not (c_test c)               (* KF :test-not ignored *)
+  | FSubstituteIf | FNsubstituteIf => true
   | FRemoveDuplicates | FDeleteDuplicates =>
       (* a non-transitive test makes "matches a later element" and "matches a later KEPT element"
          differ; under :from-end the argument order of the test is only fixed for symmetric tests *)
